@@ -22,10 +22,11 @@ Checked clauses (each on every step of every generated history):
 """
 import re
 
-KNOWN_COMMENT = 'C17-comment-index'
-KNOWN_CASE = 'C17-parse-dedup-case'
+# fixed in the repository (known/C17.json, status fixed): no region any more — a recurrence is reported as a violation
+KNOWN_COMMENT = None
+KNOWN_CASE = None
 KNOWN_MISSING = 'C17-missing-handback'
-KNOWN_COLOUR = 'C17-bad-colour-function'
+KNOWN_COLOUR = None
 
 NUM = ('DIMENSION', 'NUMBER', 'PERCENTAGE')
 HEXCOLOR = re.compile(r'^#(?:[0-9a-fA-F]{3}|[0-9a-fA-F]{6})$')
@@ -190,7 +191,7 @@ class Spec:
         return out
 
     def comments_in_list(self, ml):
-        return len(ml) != ml.length
+        return any(not isinstance(i.value, self.impl.MediaQuery) for i in ml.seq)
 
     def malformed_queries(self, ml):
         """symbol strings of the queries of the list that are not queries of the grammar"""
